@@ -20,7 +20,7 @@ ASSUMPTIONS = ["planar metric (lat/lon is tied to it by C15 and C14)", "graphs <
                "cases hit by open finding F1 (InMemMap.edges_closeto drops start candidates) are excluded on the in-memory map, "
                "counted, and covered through the SQLite map instead"]
 TOLERANCES = {"logprob": "1e-9 relative", "threshold_band": hmmref.BAND}
-BUDGET = {"quick": {"shards": 8, "examples": 700}, "thorough": {"shards": 16, "examples": 12000}}
+BUDGET = {"quick": {"shards": 8, "examples": 1200}, "thorough": {"shards": 16, "examples": 12000}}
 
 ENUM_MAX_T = 6
 
